@@ -197,7 +197,12 @@ func (a *AddressDecMap) Decode(r stdio.Reader) (err error) {
 		return errors.WithMessage(err, "decoding map length")
 	}
 
-	*a = make(map[BackendID]Address, mapLen)
+	if mapLen < 0 {
+		return errors.Errorf("negative map length: %d", mapLen)
+	}
+
+	// The length comes from the wire: do not use it as a size hint.
+	*a = make(map[BackendID]Address)
 	for i := range mapLen {
 		var idx int32
 		err := perunio.Decode(r, &idx)
@@ -222,12 +227,19 @@ func (a *AddressMapArray) Decode(r stdio.Reader) (err error) {
 		return errors.WithMessage(err, "decoding array length")
 	}
 
-	a.Addr = make([]map[BackendID]Address, mapLen)
+	if mapLen < 0 {
+		return errors.Errorf("negative array length: %d", mapLen)
+	}
+
+	// The length comes from the wire: grow the array as entries are decoded.
+	a.Addr = make([]map[BackendID]Address, 0)
 	for i := range mapLen {
-		err := perunio.Decode(r, (*AddressDecMap)(&a.Addr[i]))
+		var entry map[BackendID]Address
+		err := perunio.Decode(r, (*AddressDecMap)(&entry))
 		if err != nil {
 			return errors.WithMessagef(err, "decoding %d-th address map entry", i)
 		}
+		a.Addr = append(a.Addr, entry)
 	}
 	return nil
 }
